@@ -920,9 +920,27 @@ impl ASN1Type {
         &mut self,
         tlds: &BTreeMap<String, ToplevelDefinition>,
     ) -> Result<(), GrammarError> {
-        if let Self::ElsewhereDeclaredType(e) = self {
-            if let Some(ToplevelDefinition::Type(t)) = tlds.get(&e.identifier) {
-                *self = t.ty.clone();
+        // A reference may lead to another constrained reference, `Small2 ::= Small (MIN..5)`:
+        // the chain is followed down to the type it ends in, and the constraints met on the
+        // way apply serially, after that type's own.
+        let mut inherited: Vec<Constraint> = Vec::new();
+        let mut visited: Vec<String> = Vec::new();
+        while let Self::ElsewhereDeclaredType(e) = self {
+            if visited.contains(&e.identifier) {
+                break;
+            }
+            let Some(ToplevelDefinition::Type(t)) = tlds.get(&e.identifier) else {
+                break;
+            };
+            visited.push(e.identifier.clone());
+            let mut constraints = std::mem::take(&mut e.constraints);
+            constraints.append(&mut inherited);
+            inherited = constraints;
+            *self = t.ty.clone();
+        }
+        if !inherited.is_empty() {
+            if let Some(constraints) = self.constraints_mut() {
+                constraints.append(&mut inherited);
             }
         }
         Ok(())
